@@ -1,6 +1,7 @@
 (* C15 — Directory nodes satisfy the map-node contract on any link list (plain / generic link map part)
    and on every sharded directory written by this library. *)
-From UV Require Import Hamt.Build Hamt.Read Hamt.ShardDecode Hamt.Refine Base.Varint.
+From UV Require Import Hamt.Build Hamt.Read Hamt.TrieProofs Hamt.ShardDecode Hamt.Refine Hamt.RefineAny Base.Varint.
+From Coq Require Import Permutation.
 From UV Require Import Dir.Plain Dir.PlainProofs.
 Local Open Scope N_scope.
 
@@ -30,3 +31,19 @@ Theorem C15_sharded_map_contract : forall size lg, permitted size lg ->
   /\ (forall k, (forall v, ~ In (IYield k v) (map snd (iterate nofault root))) -> fst (Read.lookup nofault root (H k) k) = Err ENotFound).
 Proof. exact sharded_dir_contract. Qed.
 Print Assumptions C15_sharded_map_contract.
+
+(* ANY well-formed HAMT, however it was produced (our builder, the reference implementation after any history of
+   inserts and removals): the serialization of every trie keeping the HAMT invariants reads back as the map of its
+   entries through lookup, iteration and length *)
+Theorem C15_any_wellformed_shard : forall size lg, permitted size lg ->
+  forall H : bytes -> bytes, (forall k, wf_bytes (H k) = true) -> (forall k, length (H k) = 8%nat) ->
+  forall cs,
+  bwf lg 0 (BShard cs) -> bok size H (BShard cs) -> NoDup (map e_name (entries_of (BShard cs))) ->
+  let root := fst (serialize_node size HashMurmur3 (pad_len size) (BShard cs)) in
+  let entries := entries_of (BShard cs) in
+  (forall e, In e entries -> fst (Read.lookup nofault root (H (e_name e)) (e_name e)) = Ok (e_target e))
+  /\ (forall key, ~ In key (map e_name entries) -> fst (Read.lookup nofault root (H key) key) = Err ENotFound)
+  /\ Permutation (map snd (iterate nofault root)) (map yield_of entries)
+  /\ fst (shard_length nofault root) = Ok (N.of_nat (length entries)).
+Proof. exact wellformed_shard_is_map. Qed.
+Print Assumptions C15_any_wellformed_shard.
